@@ -1,29 +1,122 @@
-/- C05 — totality (initial: RawLRU; no `Fault` is reachable from a well-formed cache) -/
-import Caches.Lemmas.RawLru
+/-
+  C05 — totality: constructors validate, and no operation ever panics.
+
+  In the model every `unwrap()`, every read of a sentinel as an entry, every slice index and every checked arithmetic
+  operation of the Rust source is an explicit `Fault` (nothing is totalised). The theorems below say that from every
+  successfully constructed cache / estimator / cost tracker, every finite history of operations returns `.ok`
+  (no `Fault` is reachable), for every capacity, quota, key, raw hash, sample size and sketch geometry,
+  and that constructors reject exactly the documented argument tuples.
+  Out of reach, stated: sizes `< 2^32` (`next_power_of_2` smears 32 bits), allocation failure, `i64`/`usize` overflow of
+  running counters; the Bloom/sketch geometry computed in `f64` enters as any well-formed tuple (`TinyLfu.WF`,
+  checked on every real configuration by the driver through `TinyLfu.wfb`).
+-/
+import Caches.Lemmas.Reach
+import Caches.Properties.C11
+set_option linter.unusedSectionVars false
+set_option linter.unusedVariables false
 namespace C05
-open M M.RawLru
+open M
 variable {κ ν : Type} [DecidableEq κ]
 
-theorem rawlru_ctor (cap : Nat) (cb : Bool) :
-    ((RawLru.new cap cb : Option (RawLru κ ν)) = none ↔ cap = 0) := by
+/-! ### constructors -/
+theorem rawlru_ctor (cap : Nat) (cb : Bool) : ((RawLru.new cap cb : Option (RawLru κ ν)) = none ↔ cap = 0) := by
   unfold RawLru.new; split <;> simp_all
 
-theorem rawlru_put_total (c : RawLru κ ν) (k : κ) (v : ν) (h : c.Inv) :
-    ∃ c' r e, c.put k v = .ok (c', r, e) ∧ c'.Inv := by
-  obtain ⟨c', r, e, hp, hi, _, _⟩ := put_total_inv c k v h; exact ⟨c', r, e, hp, hi⟩
+theorem slru_ctor (p q : Nat) : ((Slru.new p q : Option (Slru κ ν)) = none ↔ p = 0 ∨ q = 0) := by
+  unfold Slru.new
+  by_cases hq : q = 0 <;> by_cases hp : p = 0 <;> simp [hq, hp]
 
-theorem rawlru_purge_total (c : RawLru κ ν) : ∃ c' e, c.purge = .ok (c', e) := ⟨_, _, purge_spec c⟩
+theorem arc_ctor (size : Nat) : ((Arc.new size : Option (Arc κ ν)) = none ↔ size = 0) := by
+  unfold Arc.new; split <;> simp_all
 
-theorem rawlru_resize_total (c : RawLru κ ν) (n : Nat) (h : c.Inv) :
-    ∃ c' ev e, c.resize n = .ok (c', ev, e) ∧ c'.Inv := by
-  obtain ⟨c', ev, e, hr, hi, _⟩ := resize_total_inv c n h; exact ⟨c', ev, e, hr, hi⟩
+/-- 2Q: `InvalidSize` for size 0 or a ghost bound that floors to 0, `InvalidRecentRatio` / `InvalidGhostRatio` for ratios outside
+    [0,1] or NaN (checked in this order); accepted otherwise -/
+theorem twoq_ctor (size : Nat) (rr gr : RatioClass) (rs es : Nat) :
+    (TwoQ.new size rr gr rs es : Except TwoQErr (TwoQ κ ν)) =
+      if size = 0 then .error .invalidSize
+      else if rr.inUnit = false then .error .invalidRecentRatio
+      else if gr.inUnit = false then .error .invalidGhostRatio
+      else if es = 0 then .error .invalidSize
+      else .ok { size := size, rs := rs, recent := { cap := size, items := [] },
+                 frequent := { cap := size, items := [] }, ghost := { cap := es, items := [] } } := by
+  unfold TwoQ.new
+  by_cases h1 : size = 0 <;> by_cases h2 : rr.inUnit <;> by_cases h3 : gr.inUnit <;> by_cases h4 : es = 0 <;> simp [h1, h2, h3, h4]
 
-theorem rawlru_orput_total (c : RawLru κ ν) (k : κ) (v : ν) (w : Option ν) (h : c.Inv) :
-    (∃ x, c.peekOrPut k v = .ok x) ∧ (∃ x, c.peekMutOrPut k v w = .ok x) ∧ (∃ x, c.containsOrPut k v = .ok x) := by
-  obtain ⟨a, b, c1, d, h1, _⟩ := peekOrPut_total_inv c k v h
-  obtain ⟨a2, b2, c2, d2, h2, _⟩ := peekMutOrPut_total_inv c k v w h
-  obtain ⟨a3, b3, c3, d3, h3, _⟩ := containsOrPut_total_inv c k v h
-  exact ⟨⟨_, h1⟩, ⟨_, h2⟩, ⟨_, h3⟩⟩
+theorem sketch_ctor (ctrs : Nat) (sch : Scheme) : (Sketch.new ctrs sch = none ↔ ctrs = 0) := by
+  unfold Sketch.new; split <;> simp_all <;> omega
 
-theorem rawlru_clone_total (c : RawLru κ ν) (h : c.Inv) : c.cloneImpl = .ok c := clone_eq c h
+/-! ### every history runs without a fault -/
+theorem rawlru_total (cap : Nat) (cb : Bool) (c0 : RawLru κ ν) (hc : RawLru.new cap cb = some c0) (ops : List (RawOp κ ν)) :
+    ∃ c, runOps RawLru.step c0 ops = .ok c :=
+  let ⟨c, h, _⟩ := runOps_inv RawLru.step RawLru.Inv RawLru.step_inv ops c0 (RawLru.inv_new cap cb c0 hc); ⟨c, h⟩
+
+/-- `resize` to any value (0 included) followed by anything -/
+theorem rawlru_total_from_inv (c0 : RawLru κ ν) (h : c0.Inv) (ops : List (RawOp κ ν)) :
+    ∃ c, runOps RawLru.step c0 ops = .ok c ∧ c.Inv := runOps_inv RawLru.step RawLru.Inv RawLru.step_inv ops c0 h
+
+/-- `from_iter`: capacity `max 1 hint`, never a fault, for every input including the empty one -/
+theorem fromIter_total (hint : Nat) (l : AL κ ν) : ∃ c e, RawLru.fromIter hint l = .ok (c, e) := by
+  unfold RawLru.fromIter RawLru.new
+  have : max 1 hint ≠ 0 := by omega
+  simp only [this, if_false]
+  suffices ∀ (l : AL κ ν) (acc : RawLru κ ν) (eff : Eff κ ν), acc.Inv → ∃ c e, RawLru.refill l acc eff = .ok (c, e) from
+    this l _ _ ⟨by simp, by simp⟩
+  intro l
+  induction l with
+  | nil => intro acc eff _; exact ⟨acc, eff, rfl⟩
+  | cons e t ih =>
+    intro acc eff hi
+    obtain ⟨c', r, e', hp, hi', _⟩ := RawLru.put_total_inv acc e.1 e.2 hi
+    simp only [RawLru.refill, hp]
+    exact ih c' _ hi'
+
+theorem slru_total (p q : Nat) (s0 : Slru κ ν) (hc : Slru.new p q = some s0) (ops : List (SlruOp κ ν)) :
+    ∃ s, runOps Slru.step s0 ops = .ok s :=
+  let ⟨s, h, _⟩ := runOps_inv Slru.step Slru.Inv Slru.step_inv ops s0 (Slru.inv_new p q s0 hc).1; ⟨s, h⟩
+
+/-- 2Q: every accepted configuration — every size ≥ 1, every quota `rs` (0 and `= size` included), every ghost bound ≥ 1 -/
+theorem twoq_total (size : Nat) (rr gr : RatioClass) (rs es : Nat) (q0 : TwoQ κ ν)
+    (hc : TwoQ.new size rr gr rs es = .ok q0) (ops : List (CacheOp κ ν)) : ∃ q, runOps TwoQ.step q0 ops = .ok q :=
+  let ⟨q, h, _⟩ := runOps_inv TwoQ.step TwoQ.Inv TwoQ.step_inv ops q0 (TwoQ.inv_new size rr gr rs es q0 hc); ⟨q, h⟩
+
+theorem arc_total (size : Nat) (a0 : Arc κ ν) (hc : Arc.new size = some a0) (ops : List (CacheOp κ ν)) :
+    ∃ a, runOps Arc.step a0 ops = .ok a :=
+  let ⟨a, h, _⟩ := runOps_inv Arc.step Arc.Inv Arc.step_inv ops a0 (Arc.inv_new size a0 hc).1; ⟨a, h⟩
+
+/-- W-TinyLFU: every capacity triple ≥ 1, every well-formed estimator, every key hasher (any 64-bit hashes) -/
+theorem wtinylfu_total (kh : κ → UInt64) (c0 : WTinyLfu κ ν) (h0 : c0.Inv) (ops : List (CacheOp κ ν)) :
+    ∃ c, runOps (WTinyLfu.step kh) c0 ops = .ok c :=
+  let ⟨c, h, _⟩ := runOps_inv (WTinyLfu.step kh) WTinyLfu.Inv (WTinyLfu.step_inv kh) ops c0 h0; ⟨c, h⟩
+
+/-- TinyLFU: every raw hash (0 and `u64::MAX` included), both position schemes, every sample size -/
+theorem tinylfu_total (ops : List C11.Op) (t : TinyLfu) (hwf : t.WF) :
+    ∃ t', C11.runT t.clear ops = .ok t' ∧ t'.WF :=
+  let ⟨t', h, hw, _⟩ := C11.sim_run ops t.clear TinyLfu.Ref.zero (TinyLfu.clear_spec t hwf).1 (TinyLfu.sim_clear t hwf); ⟨t', h, hw⟩
+
+theorem tinylfu_queries_total (t : TinyLfu) (hwf : t.WF) (a b : UInt64) (c : TinyLfu.Cmp) :
+    (∃ e, t.estimate a = .ok e) ∧ (∃ r, t.contains a = .ok r) ∧ (∃ r, t.compare c a b = .ok r) := by
+  obtain ⟨e, bb, he, _⟩ := TinyLfu.estimate_spec t hwf a
+  obtain ⟨r, hr, _⟩ := TinyLfu.contains_spec t hwf a
+  exact ⟨⟨_, he⟩, ⟨_, hr⟩, TinyLfu.compare_total t hwf c a b⟩
+
+/-- sketch and Bloom indices stay in bounds: the row index of every masked position is inside the row,
+    the word index of every probe is inside the bitset -/
+theorem sketch_index_in_bounds (s : Sketch) (hwf : s.WF) (i : Nat) (hi : i < s.rows.length) (h : UInt64) (r : Row)
+    (hr : s.rows[i]? = some r) : s.posN i h / 2 < r.length := by
+  have hp := (Sketch.pos_ok s hwf i hi h).2
+  have := (hwf.rowsWF r (List.mem_of_getElem? hr)).2
+  exact Nat.lt_of_le_of_lt (Nat.div_le_div_right hp) this
+
+theorem bloom_index_in_bounds (b : Bloom) (hwf : b.WF) (hash : UInt64) (i : Nat) (hi : i < b.setLocs) :
+    b.index (b.hl hash).1 (b.hl hash).2 i = .ok (b.idxOf hash i) ∧ (b.idxOf hash i) >>> 6 < b.bits.length :=
+  Bloom.index_ok b hwf hash i hi
+
+/-- the no_std position function `(h + i·(h >> 32)) & mask` is computed with wrapping arithmetic and is always `≤ mask` -/
+theorem core_pos_total (mask : UInt64) (i : Nat) (h : UInt64) :
+    ∃ p, Scheme.core.pos mask i h = .ok p ∧ p ≤ mask.toNat := by
+  refine ⟨_, rfl, ?_⟩
+  simp only [UInt64.toNat_and]; exact Nat.and_le_right
+
+example : ∃ c, runOps RawLru.step (⟨2, [], false⟩ : RawLru Nat Nat) [.put 1 1, .resize 0, .put 2 2, .peekOrPut 3 3] = .ok c :=
+  ⟨_, rfl⟩
 end C05
